@@ -102,6 +102,14 @@ def specs(T):
     T.body_contains(TG, 'shortest_name', "name = name.split('|')[-1]")
     T.body_contains(TG, 'shortest_name', 'name = min(filter_names(names), key=len)')
     T.body_contains(TG, 'filter_names', 'if len(names) > 1:')
+    T.body_contains(TG, 'filter_names', 'ok_names = set((n for n in names if not any((n.startswith(ex) for ex in exclude))))')
+    T.body_contains(TG, 'shorten_labels', 'overlap = curr_names.intersection(next_names)')
+    T.body_contains(TG, 'shorten_labels', 'curr_names = filter_names(overlap)')
+    # annotation: compare_chrom_names(tgt_arr, annotation); if len(tgt_arr): tgt_arr["gene"] = list(annotation.into_ranges(tgt_arr, "gene", "-"))
+    T.body_contains(TG, 'do_target', 'annotation = tabio.read_auto(annotate)')
+    T.body_contains(TG, 'do_target', 'antitarget.compare_chrom_names(tgt_arr, annotation)')
+    T.body_contains(TG, 'do_target', 'if len(tgt_arr):')
+    T.body_contains(TG, 'do_target', "tgt_arr['gene'] = list(annotation.into_ranges(tgt_arr, ")
     target_avg = _number_expr(T, T.default_node(TG, 'do_target', 'avg_size'), 'do_target avg_size')
 
     # ---- CLI defaults (cnvkit.py target / antitarget)
@@ -130,4 +138,7 @@ def specs(T):
         ('label_sep', 'string', ','),
         ('accession_sep', 'string', '|'),
         ('name_exclude', 'list string', T.default(TG, 'filter_names', 'exclude')),
+        # annotation.into_ranges(tgt_arr, "gene", "-")
+        ('annotate_column', 'string', T.call_arg(TG, 'do_target', 'into_ranges', 1)),
+        ('annotate_default', 'string', T.call_arg(TG, 'do_target', 'into_ranges', 2)),
     ]}
